@@ -13,6 +13,9 @@ CONSTANTS
   UseMineTo = FALSE
   UseCancelBySlate = FALSE
   MaxAdv = 1
+  MaxFork = 0
+  UseScan = FALSE
+  UseDiverge = FALSE
   UseAdv = TRUE
 SPECIFICATION Spec
 INVARIANT TypeOK
